@@ -177,11 +177,38 @@ func (k *checker) checkHist(h HistCase) bool {
 		}
 		k.c.Feature("hist-op:" + s.kind + ":" + op.K)
 		if !ok {
-			return done >= 1
+			// a disagreement was reported: resynchronise the shadow with the live
+			// Go object so that the remaining operations are still observed
+			if vm == nil || !s.resync() {
+				return done >= 1
+			}
+			k.c.Feature("hist-resync")
+			continue
 		}
 		done++
 	}
 	return done >= 2
+}
+
+// resync adopts the live contents as the new shadow; false if the views cannot
+// be brought to agree (script and Go disagree with each other).
+func (s *hstate) resync() bool {
+	lv, ok := s.live()
+	if !ok {
+		return false
+	}
+	s.shadow = rb.GVOf(lv)
+	if s.kind == "slice" && (lv.Len() != s.orig.Len() || lv.Len() > 0 && lv.Pointer() != s.orig.Pointer()) {
+		s.detached = true
+	}
+	a := s.k.try("__eq(c, " + rb.JSLit(s.shadow, true) + ")")
+	if kind, _ := a.bad(); kind != "" || a.result != "b:true" {
+		return false
+	}
+	if s.kind == "slice" && !s.detached || s.kind == "map" || s.h.Pass == "ptr" {
+		return rb.ValCanon(s.orig.Interface()) == valCanonGV(s.shadow)
+	}
+	return true
 }
 
 func opText(op Op) string {
@@ -428,6 +455,12 @@ func (s *hstate) seqOp(op Op) bool {
 		}
 		switch {
 		case a.loud() && n == L:
+			// ES5 15.4.4.6: pop deletes the last element before writing length; on a
+			// writable Go array the delete has already reset the element when the
+			// length write fails
+			if !isSlice && s.writable && L > 0 {
+				s.shadow.E[L-1] = zeroGV(s.et)
+			}
 		case !a.loud() && (L == 0 && n == 0 || isSlice && n == L-1):
 			w := k.try(want)
 			if L > 0 && w.result != a.result {
@@ -438,7 +471,11 @@ func (s *hstate) seqOp(op Op) bool {
 				s.shadow.E = s.shadow.E[:L-1]
 			}
 		case !a.loud() && !isSlice && n == L:
-			// arrays cannot shrink: ignored
+			// arrays cannot shrink; the generic pop (ES5 15.4.4.6) still deletes
+			// the last element, which on a Go array resets it to the zero value
+			if s.writable && L > 0 {
+				s.shadow.E[L-1] = zeroGV(s.et)
+			}
 		default:
 			k.fail("mismatch", s.site(op), fmt.Sprintf("pop: length %d->%d or a catchable error", L, L-1), fmt.Sprintf("length %d thrown=%q", n, a.thrown), s.opText)
 			return false
